@@ -241,7 +241,7 @@ fn case(bytes: &[u8], with_bin: bool) -> Outcome {
 }
 
 fn case_regress(doc: &serde_json::Value) -> Outcome {
-    let Some(g) = G::from_json(&doc["g"]) else { return Outcome::Broken("bad regress file".into()) };
+    let Some(g) = super::common::grammar_from_doc(doc) else { return Outcome::Broken("bad regress file".into()) };
     let text = print_minimal(&g);
     let class = doc["class"].as_str().unwrap_or("clean");
     let only = doc["only_shell"].as_str();
@@ -261,7 +261,14 @@ fn case_regress(doc: &serde_json::Value) -> Outcome {
                 }
             }
             Some(kw) => {
-                if st != 1 || !first.to_lowercase().contains(kw) {
+                // the class is stored by name ("SubwordSpaces") or by keyword; compare through the keyword
+                let kw_l = kw.to_lowercase();
+                let key = [Class::Cycle, Class::DuplicatePlain, Class::DuplicateSpec, Class::VaryingNames, Class::NoCallVariant, Class::SlashInName, Class::UnknownShell, Class::NonCommandSpec, Class::SubwordSpaces, Class::PlaceholderNotLast, Class::ConflictingDescriptions]
+                    .iter()
+                    .find(|c| c.name().to_lowercase() == kw_l)
+                    .map(|c| c.keyword().to_string())
+                    .unwrap_or(kw_l);
+                if st != 1 || !first.to_lowercase().contains(&key) {
                     return Outcome::Fail(Failure::new(
                         format!("grammar with a mistake ({kw}) for {shell}: status {st}, diagnostic {first:?}"),
                         json!({"text": text, "g": g.to_json(), "shell": shell, "class": class}),
